@@ -9,10 +9,10 @@ git -C /repo worktree add --detach -q "$WT" HEAD || exit 9
 cleanup() { git -C /repo worktree remove --force "$WT" 2>/dev/null; rm -rf "$VF"; }
 cd "$WT" || exit 9
 if ! git apply "$P" 2>/dev/null; then echo "SEED-RESULT patch-does-not-apply"; cleanup; exit 8; fi
-mkdir -p "$VF" && rsync -a --exclude .git --exclude .bin --exclude replays /verif/ "$VF"/
+mkdir -p "$VF" && rsync -a --exclude .git --exclude .bin --exclude .gocache --exclude replays /verif/ "$VF"/
 mkdir -p "$VF/replays"; [ -d /verif/replays/regression ] && cp -r /verif/replays/regression "$VF/replays/"
 sed -i "s#=> /repo#=> $WT#" "$VF/harness/go.mod"
-cd "$VF" && VERIF_ROOT="$VF" VERIF_REPO="$WT" VERIF_SEED="${VERIF_SEED:-1}" ./run "$ID" "$TIER" > "$VF/seed.log" 2>&1
+cd "$VF" && VERIF_ROOT="$VF" VERIF_REPO="$WT" VERIF_GOCACHE=/verif/.gocache VERIF_SEED="${VERIF_SEED:-1}" ./run "$ID" "$TIER" > "$VF/seed.log" 2>&1
 rc=$?
 grep -v "^KNOWN-FINDING" "$VF/seed.log" | tail -n ${SEED_TAIL:-4}
 if [ -n "${SEED_KEEP:-}" ]; then mkdir -p "$SEED_KEEP"; cp "$VF"/replays/$ID/violation_*.json "$SEED_KEEP"/ 2>/dev/null; fi
